@@ -649,8 +649,8 @@ class ExpressionValue(Value):
             mode = ExplicitAddressingMode.EXTENDED
 
         if self.right.is_numeric() and self.left.is_numeric():
-            left = self.left.int
-            right = self.right.int
+            left = -self.left.int if self.left.is_negative() else self.left.int
+            right = -self.right.int if self.right.is_negative() else self.right.int
 
             if self.operation == "+":
                 self.value = NumericValue("{}".format(left + right), mode=mode)
